@@ -14,8 +14,9 @@ mod bc_common;
 
 use bc_common::*;
 use rre_verif::*;
+use rust_rule_engine::backward::BackwardEngine;
 use rust_rule_engine::engine::rule::Rule;
-use rust_rule_engine::types::Value;
+use rust_rule_engine::types::{ActionType, Value};
 use rust_rule_engine::Facts;
 use std::collections::{BTreeMap, HashMap};
 
@@ -23,7 +24,9 @@ use std::collections::{BTreeMap, HashMap};
 // (b) the Facts undo API against a stack of snapshots
 // =============================================================================================
 
-const KEYS: [&str; 3] = ["a", "b", "c"];
+/// "a.x" is a FLAT key of its own (Facts::set does not split the name; the backward executor
+/// stores every conclusion like that) whose name extends the key "a"
+const KEYS: [&str; 4] = ["a", "b", "c", "a.x"];
 
 /// value domain of the model: an integer, or an object with integer members
 #[derive(Clone, Debug, PartialEq, Eq, Hash, PartialOrd, Ord)]
@@ -121,7 +124,7 @@ impl FOp {
     }
 }
 
-/// The alphabet of the exhaustive part: 3 + 3 keys x (2 set values + 2 nested values + remove) = 18 ops.
+/// The alphabet of the exhaustive part: 3 + 3 keys x (2 set values + 2 nested values + remove) + set / remove of the flat key "a.x" = 20 ops.
 fn alphabet() -> Vec<FOp> {
     let mut v = vec![FOp::Begin, FOp::Commit, FOp::Rollback];
     for k in 0..3 {
@@ -131,6 +134,8 @@ fn alphabet() -> Vec<FOp> {
         v.push(FOp::SetNested(k, 2));
         v.push(FOp::Remove(k));
     }
+    v.push(FOp::Set(3, MVal::Int(1)));
+    v.push(FOp::Remove(3));
     v
 }
 
@@ -258,6 +263,8 @@ fn run_fcase(c: &FCase) -> (Option<(String, String, String)>, FObs) {
                 // documented: "Set a nested fact property"; an absent root or a root that is not
                 // an object is an error and changes nothing
                 let expect_ok = match model.get_mut(KEYS[*k]) {
+                    // "a.x.f" is looked up as member x of the object a, which no op ever creates
+                    _ if KEYS[*k].contains('.') => false,
                     Some(MVal::Obj(m)) => {
                         m.insert("f".to_string(), *v);
                         true
@@ -292,7 +299,7 @@ fn run_fcase(c: &FCase) -> (Option<(String, String, String)>, FObs) {
             Err(e) => return (Some((CL_EFFECT.into(), "foreign-value".into(), format!("after op #{} {:?}: {}", i, op, e))), obs),
         };
         if real != model {
-            let diff: Vec<usize> = (0..3).filter(|k| real.get(KEYS[*k]) != model.get(KEYS[*k])).collect();
+            let diff: Vec<usize> = (0..KEYS.len()).filter(|k| real.get(KEYS[*k]) != model.get(KEYS[*k])).collect();
             let (clause, cause) = match (&rolled, op) {
                 (Some(fr), _) => {
                     // WHY: the implementation logs a key's previous value in the innermost open
@@ -535,6 +542,188 @@ fn check_qcase(case: &QCase, rules: &[Rule], st: &mut Stats) {
     }
 }
 
+
+// =============================================================================================
+// (a2) failed queries whose rules also have side-effect actions (Append / Retract / extra Set)
+// =============================================================================================
+
+/// An extra action put on the parsed rule `rule` (before its conclusions when `first`): the
+/// fields it touches occur in no condition, so the proof search itself is unaffected.
+#[derive(Clone, Debug, PartialEq, Eq, Hash)]
+struct Side {
+    rule: usize,
+    /// 0 = Append to Aux.items, 1 = Retract of Aux.gone, 2 = Set of Aux.note
+    kind: u8,
+    first: bool,
+}
+
+#[derive(Clone, Debug, PartialEq, Eq, Hash)]
+struct SCase {
+    q: QCase,
+    side: Vec<Side>,
+    /// Aux.items (an array), Aux.gone and Aux.note exist before the query
+    aux_present: bool,
+}
+
+impl SCase {
+    fn to_json(&self) -> Json {
+        let mut j = self.q.to_json();
+        j["kind"] = json!("query-with-side-effect-actions");
+        j["side_effect_actions"] = Json::Array(
+            self.side
+                .iter()
+                .map(|s| {
+                    let text = ["Append Aux.items += \"x\"", "Retract Aux.gone", "Set Aux.note = 7"][s.kind as usize % 3];
+                    json!({"rule_index": s.rule, "action": text, "kind": s.kind, "before_the_conclusions": s.first})
+                })
+                .collect(),
+        );
+        j["aux_facts_present_before_the_query"] = json!(self.aux_present);
+        j
+    }
+    fn from_json(j: &Json) -> Option<SCase> {
+        let q = QCase::from_json(j)?;
+        let mut side = Vec::new();
+        for s in j.get("side_effect_actions")?.as_array()? {
+            side.push(Side { rule: s.get("rule_index")?.as_u64()? as usize, kind: s.get("kind")?.as_u64()? as u8, first: s.get("before_the_conclusions")?.as_bool()? });
+        }
+        Some(SCase { q, side, aux_present: j.get("aux_facts_present_before_the_query")?.as_bool()? })
+    }
+}
+
+fn with_side_effects(rules: &[Rule], side: &[Side]) -> Vec<Rule> {
+    let mut rules = rules.to_vec();
+    for s in side {
+        let Some(r) = rules.get_mut(s.rule) else { continue };
+        let a = match s.kind % 3 {
+            0 => ActionType::Append { field: "Aux.items".into(), value: Value::String("x".into()) },
+            1 => ActionType::Retract { object: "Aux.gone".into() },
+            _ => ActionType::Set { field: "Aux.note".into(), value: Value::Integer(7) },
+        };
+        if s.first {
+            r.actions.insert(0, a);
+        } else {
+            r.actions.push(a);
+        }
+    }
+    rules
+}
+
+fn run_scase_once(c: &SCase, rules: &[Rule]) -> Option<QObs> {
+    let rules = with_side_effects(rules, &c.side);
+    let kb = make_kb(&rules).ok()?;
+    let mut engine = BackwardEngine::with_config(kb, c.q.cfg.engine());
+    let mut f = make_facts(&c.q.facts);
+    if c.aux_present {
+        f.set("Aux.items", Value::Array(vec![Value::String("seed".into())]));
+        f.set("Aux.gone", Value::Integer(1));
+        f.set("Aux.note", Value::Integer(0));
+    }
+    Some(run_query_on(&mut engine, &mut f, &c.q.goal.text()))
+}
+
+fn run_scase(c: &SCase, rules: &[Rule], reps: usize) -> (Option<String>, Option<QObs>) {
+    let mut last = (None, None);
+    for _ in 0..reps.max(1) {
+        let Some(obs) = run_scase_once(c, rules) else { return (None, None) };
+        let v = judge_query(&c.q, &obs);
+        let hit = v.is_some();
+        last = (v, Some(obs));
+        if hit {
+            break;
+        }
+    }
+    last
+}
+
+fn sviolation(c: &SCase, detail: &str, obs: &QObs) -> Violation {
+    let changed: Vec<&String> = obs.after.keys().chain(obs.before.keys()).filter(|k| obs.before.get(*k) != obs.after.get(*k)).collect();
+    let cause = if !changed.is_empty() && changed.iter().all(|k| k.starts_with("Aux.")) {
+        let mut kinds: Vec<&str> = Vec::new();
+        for k in &changed {
+            let n = match k.as_str() {
+                "Aux.items" => "Append",
+                "Aux.gone" => "Retract",
+                _ => "Set",
+            };
+            if !kinds.contains(&n) {
+                kinds.push(n);
+            }
+        }
+        kinds.sort();
+        format!("side-effect-action-not-undone:{}", kinds.join("+"))
+    } else {
+        query_cause(&c.q, obs).to_string()
+    };
+    Violation { clause: CL_QUERY.to_string(), sig: format!("C10|{}|{}", CL_QUERY, cause), detail: detail.to_string(), case: c.to_json() }
+}
+
+fn check_scase(c: &SCase, rules: &[Rule], st: &mut Stats) {
+    let reps = qreps(&c.q, true);
+    let (v, obs) = run_scase(c, rules, reps);
+    st.eval();
+    st.count("queries_over_rules_with_side_effect_actions");
+    let Some(o) = obs else { return };
+    if o.provable() == Some(false) {
+        st.count("side_effect_queries_not_provable_(facts_compared)");
+        let clo = closure(&c.q.kb, &c.q.facts);
+        if c.side.iter().any(|s| c.q.kb.rules.get(s.rule).map(|r| clo.fireable.contains(&r.name)).unwrap_or(false)) {
+            st.count("failed_side_effect_queries_where_a_rule_carrying_one_was_fireable");
+            st.nontrivial(hash_of(c));
+            st.sample(|| c.to_json());
+        }
+    }
+    if let Some(detail) = v {
+        // shrink: drop side-effect actions, then rules that carry none
+        let mut cur = c.clone();
+        let fails = |x: &SCase| {
+            let r = build_rules_direct(&x.q.kb);
+            run_scase(x, &r, 6).0.is_some()
+        };
+        let mut changed = true;
+        while changed {
+            changed = false;
+            for i in 0..cur.side.len() {
+                let mut n = cur.clone();
+                n.side.remove(i);
+                if fails(&n) {
+                    cur = n;
+                    changed = true;
+                    break;
+                }
+            }
+            if changed {
+                continue;
+            }
+            for i in (0..cur.q.kb.rules.len()).rev() {
+                if cur.q.kb.rules.len() <= 1 {
+                    break;
+                }
+                let mut n = cur.clone();
+                n.q.kb.rules.remove(i);
+                n.side.retain(|s| s.rule != i);
+                for s in n.side.iter_mut() {
+                    if s.rule > i {
+                        s.rule -= 1;
+                    }
+                }
+                if fails(&n) {
+                    cur = n;
+                    changed = true;
+                    break;
+                }
+            }
+        }
+        if let Ok(r) = parse_kb(&cur.q.kb) {
+            if let (Some(d), Some(o2)) = run_scase(&cur, &r, 32) {
+                st.violation(sviolation(&cur, &d, &o2));
+                return;
+            }
+        }
+        st.violation(sviolation(c, &detail, &o));
+    }
+}
+
 // =============================================================================================
 
 struct C10;
@@ -544,7 +733,7 @@ impl Check for C10 {
         "C10"
     }
     fn rule(&self) -> String {
-        "(b) Facts API, exhaustive: ALL sequences of length L (5 quick, 6 thorough) over the 18-operation alphabet begin / commit / rollback / set(k, 1 | {f:0}) / set_nested(k.f, 1 | 2) / remove(k), k in {a,b,c}, from 2 initial stores ({} and {a:{f:0}, b:0}); the whole store is compared with the stack-of-snapshots model after every operation, so every prefix (every shorter sequence) is checked too. random: lengths 6..=10 over the same alphabet with begin/commit/rollback weighted up. A sequence is non-trivial when it rolls back at least one frame in which the store had changed; distinct by (initial store, operations). (a) queries: the C09 generator (Horn KBs of 1..=8 rules from GRL text, chains to depth 6 with wrong-value conclusions, dead ends, cycles, parents with two sub-goals; 14 queries per KB; dfs/bfs/iterative; max_depth 0..=6; max_solutions 1 or 3); every answer `provable == false` is judged; non-trivial when some candidate rule of the goal is fireable in the reference closure (the attempt could derive something before failing).".into()
+        "(b) Facts API, exhaustive: ALL sequences of length L (5 quick, 6 thorough) over the 20-operation alphabet begin / commit / rollback / set(k, 1 | {f:0}) / set_nested(k.f, 1 | 2) / remove(k), k in {a,b,c}, plus set / remove of the FLAT key \"a.x\" (a name that extends the key a), from 2 initial stores ({} and {a:{f:0}, b:0}); the whole store is compared with the stack-of-snapshots model after every operation, so every prefix (every shorter sequence) is checked too. random: lengths 6..=10 over the same alphabet with begin/commit/rollback weighted up. A sequence is non-trivial when it rolls back at least one frame in which the store had changed; distinct by (initial store, operations). (a) queries: the C09 generator (Horn KBs of 1..=8 rules from GRL text, chains to depth 6 with wrong-value conclusions, dead ends, cycles, parents with two sub-goals; 14 queries per KB; dfs/bfs/iterative; max_depth 0..=6; max_solutions 1 or 3); every answer `provable == false` is judged; non-trivial when some candidate rule of the goal is fireable in the reference closure (the attempt could derive something before failing). (a2) one in three of those queries is asked again over the same rules with 1-3 side-effect actions added to the parsed rules (Append to an array, Retract of a key, Set of an unrelated key; before or after the rule's conclusions; the touched keys Aux.* occur in no condition; present before the query in 3/4 of the cases).".into()
     }
     fn assumptions(&self) -> Vec<String> {
         vec![
@@ -599,7 +788,7 @@ impl Check for C10 {
             }
         });
         st.exhaustive.push(format!(
-            "Facts undo API: all {}^{} operation sequences of length {} (hence every shorter one as a prefix) over begin/commit/rollback/set/set_nested/remove x 3 keys x 2 values, from 2 initial stores",
+            "Facts undo API: all {}^{} operation sequences of length {} (hence every shorter one as a prefix) over begin/commit/rollback/set/set_nested/remove x 3 keys x 2 values plus set/remove of the flat key \"a.x\", from 2 initial stores",
             n, len, len
         ));
 
@@ -656,6 +845,13 @@ impl Check for C10 {
                     }
                     let case = QCase { kb: plan.kb.clone(), facts, goal, cfg };
                     check_qcase(&case, &parsed, st);
+                    if rng.chance(1, 3) && !plan.kb.rules.is_empty() {
+                        // the same query over the same rules carrying 1-3 side-effect actions
+                        let nside = 1 + rng.below(3);
+                        let side = (0..nside).map(|_| Side { rule: rng.below(plan.kb.rules.len()), kind: rng.below(3) as u8, first: rng.bool() }).collect();
+                        let sc = SCase { q: case.clone(), side, aux_present: rng.chance(3, 4) };
+                        check_scase(&sc, &parsed, st);
+                    }
                 }
             }
         });
@@ -671,6 +867,16 @@ impl Check for C10 {
                 Ok((Some((clause, cause, detail)), _)) => vec![fviolation(&c, &clause, &cause, &detail)],
                 Ok((None, _)) => vec![],
                 Err(p) => vec![fviolation(&c, "no-panic", &format!("{}|{}", p.class(), p.frame), &format!("panic: {} at {}:{}", p.msg, p.file, p.line))],
+            };
+        }
+        if kind == "query-with-side-effect-actions" {
+            let Some(c) = SCase::from_json(case) else {
+                return vec![Violation { clause: "harness".into(), sig: "C10|harness|bad-case".into(), detail: "cannot decode case".into(), case: case.clone() }];
+            };
+            let Ok(rules) = parse_kb(&c.q.kb) else { return vec![] };
+            return match run_scase(&c, &rules, qreps(&c.q, false)) {
+                (Some(detail), Some(obs)) => vec![sviolation(&c, &detail, &obs)],
+                _ => vec![],
             };
         }
         let Some(c) = QCase::from_json(case) else {
